@@ -127,6 +127,19 @@ pub fn run(seed: u64, thorough: bool, rep: &mut Report) {
         let tsd = some_u32(&mut rng);
         let a = Appointment::new(Locator::from_slice(&loc).unwrap(), blob.clone(), tsd);
         rep.line(&format!("wi tovec Appointment {} {} {tsd}", bytes_tok(&loc), bytes_tok(&blob)), &hex::encode(a.to_vec()));
+        // the signed bytes carry every field: their tail is the delay (4 bytes, big endian), and another delay (the same
+        // modulo 2^16, 2^8 or 2^24 in particular) gives other bytes — one signature must not authenticate two appointments
+        {
+            let v = a.to_vec();
+            if v.len() != 16 + blob.len() + 4 || v[v.len() - 4..] != tsd.to_be_bytes() || v[..16] != loc[..] || v[16..v.len() - 4] != blob[..] {
+                rep.fail("C16", "signed_bytes_do_not_carry_the_fields", &format!("Appointment::to_vec() for to_self_delay {tsd} is {}", hex::encode(&v)));
+            }
+            for other in [tsd.wrapping_add(1 << 16), tsd.wrapping_add(1 << 8), tsd.wrapping_add(1 << 24), tsd ^ 0x8000_0000] {
+                if other != tsd && Appointment::new(Locator::from_slice(&loc).unwrap(), blob.clone(), other).to_vec() == v {
+                    rep.fail("C16", "signed_bytes_collide", &format!("appointments that differ only in to_self_delay ({tsd} vs {other}) have the same signed bytes"));
+                }
+            }
+        }
         let uid = UserId(user_key(rng.below(5) as u32).pk);
         let (s1, s2, s3) = (some_u32(&mut rng), some_u32(&mut rng), some_u32(&mut rng));
         let r = RegistrationReceipt::new(uid, s1, s2, s3);
